@@ -64,6 +64,23 @@ def cases(tier, inst):
                             if tier == "quick" and dk == "d2" and consume == "next":
                                 continue
                             yield (amb, quant, ck, head, k, dk, consume)
+    # --- selected EXPRESSIONS (attribute, index, un-nested element, concatenated value) instead of a plain variable
+    for amb in AMBIENTS:
+        for ck in ("cmp", "pf", "pc"):
+            for k in (1, 2):
+                for quant, head in (("an", "selattr"), ("the", "selattr"), ("an", "selindex"), ("an", "selflat"),
+                                    ("an", "selconc")):
+                    for consume in (("list", "next") if quant != "the" else ("call",)):
+                        yield (amb, quant, ck, head, k, "d4", consume)
+    # --- the same evaluations while ANOTHER query's result iterator is open (advanced once, not closed): an evaluation
+    #     in progress elsewhere must not change how this one is evaluated
+    for amb in AMBIENTS:
+        for ck in ("cmp", "pf", "pc", "notpc"):
+            for k in (1, 2):
+                for quant, head in (("an", "var"), ("the", "var"), ("infer", "ctor"), ("the", "ctor"), ("an", "add"),
+                                    ("an", "addalt")):
+                    for consume in (("list", "next") if quant != "the" else ("call",)):
+                        yield (amb, quant, ck, head, k, "d4", consume, "open_iterator")
     # --- variables WITHOUT a domain described by field values (predicate form): their field constraints are built by the
     #     library itself, in a symbolic block of its own, during the FIRST evaluation - which here runs under the ambient
     #     mode; followed by a second evaluation under the same ambient mode
@@ -76,14 +93,16 @@ def cases(tier, inst):
 
 
 def wspec_of(case):
+    case = case[:7]
     rows = DOMS[case[5]]
     # ref alternates between an Item and an Other, so HasType(x.ref, Item) is a real filter
-    rows2 = tuple(r + (("ref", ("@", "DO" if i % 2 else "DI", i % 2)),) for i, r in enumerate(rows))
+    rows2 = tuple(r + (("ref", ("@", "DO" if i % 2 else "DI", i % 2)), ("t", (i + 1, 7) if i % 2 else (i + 1,)))
+                  for i, r in enumerate(rows))
     return (("DI", "Item", ((("p", 9),), (("p", 8),))), ("DO", "Other", OTHERS), ("D", "Item", rows2))
 
 
 def build_query(case, world, inst):
-    amb, quant, ck, head, k, dk, consume = case
+    amb, quant, ck, head, k, dk, consume = case[:7]
     cond = CONDS[ck](k)
     b = Q.Builder(world, inst)
     QF = {"an": an, "the": the, "infer": infer}[quant]
@@ -91,6 +110,20 @@ def build_query(case, world, inst):
         with symbolic_mode():
             b.declare((VX,))
             return QF(entity(b.env["x"], b.cond(cond))), b
+    if head.startswith("sel"):
+        from entity_query_language import flatten, concatenate
+        with symbolic_mode():
+            b.declare((VX,))
+            x = b.env["x"]
+            if head == "selattr":
+                return QF(entity(x.q, b.cond(cond))), b
+            if head == "selindex":
+                return QF(entity(x.t[0], b.cond(cond))), b
+            if head == "selflat":
+                e = flatten(x.t)
+                b.selflat = (x, e)
+                return QF(set_of([x, e], b.cond(cond))), b
+            return QF(entity(concatenate(x.t))), b
     if head == "ctor":
         with rule_mode():
             b.declare((VX,))
@@ -111,10 +144,23 @@ def build_query(case, world, inst):
 
 
 def expected(case, world, inst):
-    amb, quant, ck, head, k, dk, consume = case
+    amb, quant, ck, head, k, dk, consume = case[:7]
     ref = Q.Ref(world, inst)
     cond = CONDS[ck](k)
     dom = ref.domain(VX)
+    if head.startswith("sel"):
+        sols = [o for o in dom if ref.holds(cond, {"x": o})]
+        if head == "selattr":
+            vals = [Q.norm(o.q) for o in sols]
+        elif head == "selindex":
+            vals = [Q.norm(o.t[0]) for o in sols]
+        elif head == "selflat":
+            vals = [(Q.norm(o), Q.norm(e)) for o in sols for e in o.t]
+        else:
+            vals = [Q.norm([e for o in dom for e in o.t])]
+        if quant == "the":
+            return ("NoSolution",) if not vals else (("value", vals[0]) if len(vals) == 1 else ("Multiple",))
+        return ("rows", sorted(map(repr, vals)))
     if head == "addalt":
         vals = []
         for o in dom:
@@ -291,7 +337,8 @@ def describe_nd(case, inst):
 def run_case(case, inst):
     if case[0] == "nd":
         return run_nd(case, inst)
-    amb, quant, ck, head, k, dk, consume = case
+    open_iterator = len(case) == 8
+    amb, quant, ck, head, k, dk, consume = case[:7]
 
     def body():
         world = build_world(wspec_of(case), inst)
@@ -300,6 +347,14 @@ def run_case(case, inst):
             q, b = build_query(case, world, inst)
         except Exception as e:
             return ("build", exc_obs(e)), exp, None
+        kept = []
+        if open_iterator:
+            with symbolic_mode():
+                z = let(W.Item, world["DI"])
+                q0 = an(entity(z, z.p >= 1))
+            it0 = q0.evaluate()
+            next(it0)
+            kept.append(it0)
         W.LOG.reset()
         ctx = {"none": None, "query": symbolic_mode, "rule": rule_mode}[amb]
         notes = []
@@ -312,6 +367,8 @@ def run_case(case, inst):
                     return ("Multiple",)
                 except NoSolutionFound:
                     return ("NoSolution",)
+                if head.startswith("sel"):
+                    return ("value", Q.norm(r)) if not isinstance(r, SymbolicExpression) else ("value", ("symbolic", type(r).__name__))
                 if not isinstance(r, (W.Item, W.Made)):
                     notes.append(f"not-a-real-instance:{type(r).__name__}")
                     return ("value", ("symbolic", type(r).__name__))
@@ -328,6 +385,10 @@ def run_case(case, inst):
                         break
                     # between two results the ambient mode must be the block's mode (that is C08's business; here we
                     # only make sure evaluation itself is unaffected by being resumed under it)
+            if head == "selflat":
+                return ("rows", sorted(repr((Q.norm(r[b.selflat[0]]), Q.norm(r[b.selflat[1]]))) for r in rows))
+            if head.startswith("sel"):
+                return ("rows", sorted(repr(Q.norm(list(r) if head == "selconc" else r)) for r in rows))
             for r in rows:
                 if not isinstance(r, (W.Item, W.Made)):
                     notes.append(f"not-a-real-instance:{type(r).__name__}")
@@ -353,20 +414,26 @@ def run_case(case, inst):
     got, exp, notes = run_isolated(body)
     ok = got == exp and not notes
     res = {"ok": ok, "nontrivial": amb != "none" and exp not in (("rows", []), ("NoSolution",)), "transitions": 2,
-           "tags": [f"ambient={amb}", f"quant={quant}", f"cond={ck}", f"head={head}", f"consume={consume}"],
+           "tags": [f"ambient={amb}", f"quant={quant}", f"cond={ck}", f"head={head}", f"consume={consume}"]
+                   + (["another_iterator_open"] if open_iterator else []),
            "outcome": f"{quant}:{exp[0]}:{len(exp[1]) if exp[0] == 'rows' else ''}"}
     if not ok:
         why = "mismatch" if got != exp else notes[0].split(":")[0]
-        res.update(sig=f"{why}/ambient={amb}/quant={quant}/head={head}", obs=(got, notes), exp=(exp, []))
+        res.update(sig=f"{why}/ambient={amb}/quant={quant}/head={head}" + ("/open-iterator" if open_iterator else ""),
+                   obs=(got, notes), exp=(exp, []))
     return res
 
 
 def describe(case, inst):
     if case[0] == "nd":
         return describe_nd(case, inst)
-    amb, quant, ck, head, k, dk, consume = case
+    amb, quant, ck, head, k, dk, consume = case[:7]
     cond = Q.up_cond(CONDS[ck](k), inst)
-    if head == "var":
+    if head.startswith("sel"):
+        sel = {"selattr": f"entity(x.q, {cond})", "selindex": f"entity(x.t[0], {cond})",
+               "selflat": f"set_of([x, flatten(x.t)], {cond})", "selconc": "entity(concatenate(x.t))"}[head]
+        build = f"with symbolic_mode(): x = let(Item, D); q = {quant}({sel})"
+    elif head == "var":
         build = f"with symbolic_mode(): x = let(Item, D); q = {quant}(entity(x, {cond}))"
     elif head == "ctor":
         build = f"with rule_mode(): x = let(Item, D); q = {quant}(entity(Made(a=x, b=x.p), {cond}))"
@@ -376,5 +443,7 @@ def describe(case, inst):
                  + (f"\n    with alternative(x.q == {inst.v(2)}): Add(views, Made(a=x, b=x.p, c=2))" if head == "addalt" else ""))
     ev = "q.evaluate()" if quant == "the" else ("list(q.evaluate())" if consume == "list" else "it = q.evaluate(); next(it) ... until exhausted")
     amb_s = {"none": "", "query": "with symbolic_mode(): ", "rule": "with rule_mode(): "}[amb]
-    return (Q.up_world(wspec_of(case), inst) + "\n" + build + f"\n{amb_s}result = {ev}"
+    pre = ("\nwith symbolic_mode(): z = let(Item, DI); q0 = an(entity(z, z.p >= 1))\nit0 = q0.evaluate(); next(it0)   # stays open"
+           if len(case) == 8 else "")
+    return (Q.up_world(wspec_of(case), inst) + "\n" + build + pre + f"\n{amb_s}result = {ev}"
             + "\n# expected: same as with no ambient block; predicates run concretely; real instances")
